@@ -641,6 +641,7 @@ func main() {
 		"mutations are those expressible through exported fields (what any caller of the package can do); *regexp.Regexp is opaque",
 		"the original is observed through a deep fingerprint over pointers, interface targets, lists (within their length) and maps",
 		"three subject configurations; list and map sizes 0..3",
+		"Clone returns an empty *regexp.Regexp for Path.Regexp (unexported fields cannot be copied by deepClone); every caller overwrites it; the copy must equal the original in every other field (checked)",
 	}
 	r.Finish()
 }
